@@ -41,6 +41,7 @@ inductive Action
   | str                 -- sendTerminateRequest(reason)
   | sta                 -- sendTerminateAck(pkt.Identifier)
   | setState (s : St)   -- setState(XStateY)
+  | stopTimer           -- stopTimer() inside a branch of timeout()
   deriving DecidableEq, Repr
 
 /-- statements of a handler before its `switch m.state` -/
@@ -110,6 +111,8 @@ structure Cfg where
   peerIP : Option (List Nat) := none
   dns1 : Option (List Nat) := none
   dns2 : Option (List Nat) := none
+  /-- IPCP: an IPPool is configured (its answers are parameters: `Ev.poolNext`) -/
+  pool : Bool := false
   deriving Repr
 
 /-- the value `initializeRestartCount()` stores -/
@@ -289,10 +292,22 @@ structure State where
   localIP : Option (List Nat) := none
   /-- IPv6CP negotiated.LocalInterfaceID: `none` = still our own (symbolic), `some b` = the peer's suggestion -/
   localIfid : Option (List Nat) := none
+  /-- IPCP `config.PeerIP`: the address the automaton believes it may acknowledge -/
+  peerIP : Option (List Nat) := none
+  /-- IPCP `negotiated.PeerIP != nil` -/
+  negPeer : Bool := false
+  /-- ghost: the address that IS assigned to the session — configured statically / by SetPeerIP, or held in the
+      pool for this session; none once `IPPool.Release(sessionID)` has been called -/
+  assigned : Option (List Nat) := none
+  /-- what `IPPool.Allocate(sessionID)` answers next (an external call: a parameter, set by `Ev.poolNext`) -/
+  poolNext : Option (List Nat) := none
   deriving Repr
 
 def init (c : Cfg) : State :=
-  { localMRU := c.mru, pfc := c.pfc, acfc := c.acfc, localIP := c.localIP }
+  { localMRU := c.mru, pfc := c.pfc, acfc := c.acfc, localIP := c.localIP, peerIP := c.peerIP, assigned := c.peerIP }
+
+/-- the configuration in force in state `s`: `config.PeerIP` is mutable (pool allocation, SetPeerIP) -/
+def effCfg (c : Cfg) (s : State) : Cfg := { c with peerIP := s.peerIP }
 
 /-- options of the Configure-Request `sendConfigureRequest()` builds -/
 def crOpts (c : Cfg) (s : State) : List Opt :=
@@ -347,6 +362,10 @@ structure Run where
   respAck : Bool := false
   /-- what `opts` holds -/
   opts : List Opt := []
+  /-- invocations of the onStateChange callback (old, new) -/
+  trans : List (St × St) := []
+  /-- calls made to the IPPool: `some a` = Allocate answered a (`some []` = nil), `none` = Release -/
+  pool : List (Option (List Nat)) := []
 
 def mkPkt (k : Send) (c : Cfg) (x : Ctx) (s : State) : Pkt :=
   match k with
@@ -370,7 +389,8 @@ def doAct (T : Tables) (c : Cfg) (x : Ctx) (r : Run) : Action → Run
   | .scr => doSend T .scr c x r
   | .str => doSend T .str c x r
   | .sta => doSend T .sta c x r
-  | .setState q => { r with s := { r.s with st := q } }
+  | .setState q => { r with s := { r.s with st := q }, trans := r.trans ++ [(r.s.st, q)] }
+  | .stopTimer => { r with s := { r.s with armed := false } }
 
 def doPre (c : Cfg) (h : Handler) (x : Ctx) (r : Run) (p : Pre) : Run :=
   if !r.cont then r else
@@ -383,15 +403,30 @@ def doPre (c : Cfg) (h : Handler) (x : Ctx) (r : Run) (p : Pre) : Run :=
     let p := replyTo c x.id x.opts
     -- an IPv6CP interface-identifier collision makes the automaton draw a new identifier of its own
     let ifid := if c.proto == .ipv6cp && x.opts.any (fun o => o.ty == 1 && o.sym == .ours) then none else r.s.localIfid
-    { r with out := r.out ++ [p], respAck := p.code == cCA, s := { r.s with peer := p.code == cCA, localIfid := ifid } }
+    -- IPCP stores an accepted address in negotiated.PeerIP while classifying, whatever the final reply is
+    let neg := r.s.negPeer || (c.proto == .ipcp && (List.zip x.opts (verdicts c false x.opts)).any fun ov => ov.1.ty == 3 && ov.2 == .ack)
+    { r with out := r.out ++ [p], respAck := p.code == cCA,
+             s := { r.s with peer := p.code == cCA, localIfid := ifid, negPeer := neg } }
   | .applyOpts =>
     match h with
     | .rcn => { r with s := r.opts.foldl (applyNak c) r.s }
     | .rcj => { r with s := r.opts.foldl (applyRej c) r.s }
     | _ => r
   | .incFailure => r
-  | .allocPeer => r      -- IPPool == nil in the modelled configuration
-  | .releasePeer => r
+  | .allocPeer =>
+    -- Up(): `if config.PeerIP == nil && config.IPPool != nil { config.PeerIP = IPPool.Allocate(id); negotiated.PeerIP = config.PeerIP }`
+    if r.s.peerIP.isNone && c.pool then
+      match r.s.poolNext with
+      | some a => { r with pool := r.pool ++ [some a],
+                           s := { r.s with peerIP := some a, negPeer := true, assigned := some a } }
+      | none => { r with pool := r.pool ++ [some []], s := { r.s with negPeer := false } }
+    else r
+  | .releasePeer =>
+    -- Down(): `if config.IPPool != nil && negotiated.PeerIP != nil { IPPool.Release(id); config.PeerIP = nil; negotiated.PeerIP = nil }`
+    if c.pool && r.s.negPeer then
+      { r with pool := r.pool ++ [none],
+               s := { r.s with peerIP := none, negPeer := false, assigned := none } }
+    else r
 
 def runHandler (T : Tables) (c : Cfg) (h : Handler) (x : Ctx) (s : State) : Run :=
   let r1 := (T.pre h).foldl (doPre c h x) { s := s, opts := x.opts }
@@ -422,14 +457,20 @@ inductive Ev
   | other (code : Nat) (id : UInt8)
   /-- API calls `SendEchoRequest()`, `SendProtocolReject()` (LCP only) -/
   | sendEcho | sendProtoRej
+  /-- API call `SetPeerIP(ip)` (IPCP); none = nil -/
+  | setPeer (a : Option (List Nat))
+  /-- the pool's next answer to `Allocate` changes (other sessions took or returned addresses) -/
+  | poolNext (a : Option (List Nat))
   deriving Repr
 
 structure Obs where
   out : List Pkt := []
   err : Bool := false
+  trans : List (St × St) := []
+  pool : List (Option (List Nat)) := []
   deriving Repr
 
-def fin (r : Run) : State × Obs := (r.s, { out := r.out, err := r.err })
+def fin (r : Run) : State × Obs := (r.s, { out := r.out, err := r.err, trans := r.trans, pool := r.pool })
 
 /-- a packet whose code `ReceivePacket` dispatches to an automaton handler -/
 def recv (T : Tables) (c : Cfg) (code : Nat) (x : Ctx) (s0 : State) : State × Obs :=
@@ -444,7 +485,8 @@ def recv (T : Tables) (c : Cfg) (code : Nat) (x : Ctx) (s0 : State) : State × O
       (s', { out := [{ code := cXJ, id := s'.ident }] })
     else (s, {})
 
-def step (T : Tables) (c : Cfg) (s : State) : Ev → State × Obs
+/-- one event under a FIXED configuration `c` (see `step`) -/
+def step0 (T : Tables) (c : Cfg) (s : State) : Ev → State × Obs
   | .up => fin (runHandler T c .up {} s)
   | .down => fin (runHandler T c .down {} { s with our := false, peer := false })
   | .open => fin (runHandler T c .open {} s)
@@ -485,55 +527,80 @@ def step (T : Tables) (c : Cfg) (s : State) : Ev → State × Obs
       let s' := { s with ident := s.ident + 1 }
       (s', { out := [{ code := cPJ, id := s'.ident }] })
     else (s, {})
+  | .setPeer a =>
+    if c.proto = .ipcp then
+      ({ s with peerIP := a, negPeer := a.isSome, assigned := a }, {})
+    else (s, {})
+  | .poolNext a => ({ s with poolNext := a }, {})
+
+/-- one event: the handlers see the configuration in force when the event arrives -/
+def step (T : Tables) (c : Cfg) (s : State) (e : Ev) : State × Obs := step0 T (effCfg c s) s e
 
 def run (T : Tables) (c : Cfg) : State → List Ev → State
   | s, [] => s
   | s, e :: es => run T c (step T c s e).1 es
 
-/-! ## the monitor: judges the IMPLEMENTATION's observations (state after each event, packets sent) -/
+/-! ## the monitor: judges the IMPLEMENTATION's observations (state after each event, timer, packets sent,
+       pool calls, whether an Ack's bytes equal the request's) -/
 
 structure Mon where
-  maxConf : Int := 0
   lastCR : Option UInt8 := none
   our : Bool := false
   peer : Bool := false
   prev : String := "Initial"
-  /-- consecutive restart-timer expiries that each caused a retransmission -/
-  retx : Nat := 0
+  /-- Configure- and Terminate-Requests sent since (and including) the last event that came from the peer or the
+      administrator -/
+  tx : Nat := 0
+  /-- the address assigned to the session, from the configuration, SetPeerIP and the pool calls observed -/
+  assigned : Option (List Nat) := none
 
 /-- what the monitor needs to know about an operation -/
 inductive MEv
-  | down | close | timeout
+  | up | open | down | close | timeout | stale
   | rcr (id : UInt8) (opts : List Opt) (bad : Bool)
   | rca (id : UInt8)
-  | rcnj (id : UInt8) (bad : Bool)
+  | rcnj (id : UInt8) (leaves : Bool)   -- leaves: the options parse, or the handler does not insist that they do
   | rtr (id : UInt8) | rta
   | critRej
   | echo (id : UInt8)
-  | quiet        -- an event after which the peer is no longer silent but which has no other obligations
+  | setPeer (a : Option (List Nat))
+  | peerPkt      -- any other packet from the peer
+  | local        -- an API call that is neither administrative nor from the peer
   deriving Repr
+
+structure MObs where
+  st : String
+  armed : Bool
+  ackBytesOk : Bool
+  pool : List (Option (List Nat))
+  out : List Pkt
 
 def isReplyCode (k : Nat) : Bool := k == cCA || k == cCN || k == cCJ || k == cTA || k == cER
 
-/-- the per-option acceptability the property speaks of ("offending" = not acceptable), as a function of
-    the configuration only; `col` as in `class1` -/
+/-- the options of a request the classifier does not acknowledge -/
 def offending (c : Cfg) (opts : List Opt) : List Opt :=
-  rejs opts (verdicts c false opts) ++
-  (List.zip opts (verdicts c false opts)).filterMap fun (o, v) => match v with | .nak _ => some o | _ => none
+  (List.zip opts (verdicts c false opts)).filterMap fun (o, v) => match v with | .ack => none | _ => some o
 
 def sublistB [DecidableEq α] : List α → List α → Bool
   | [], _ => true
   | _ :: _, [] => false
   | a :: as, b :: bs => if a = b then sublistB as bs else sublistB (a :: as) bs
 
-/-- verdicts `(clause, detail)` for one observed step -/
-def Mon.check (c : Cfg) (m : Mon) (e : MEv) (stNow : String) (out : List Pkt) : Mon × List (String × String) :=
-  -- ghost bookkeeping from observations only
+def applyPoolObs (m : Mon) : List (Option (List Nat)) → Mon
+  | [] => m
+  | some [] :: rest => applyPoolObs m rest
+  | some a :: rest => applyPoolObs { m with assigned := some a } rest
+  | none :: rest => applyPoolObs { m with assigned := none } rest
+
+/-- verdicts `(clause, detail)` for one observed step; `c` carries the static configuration -/
+def Mon.check (c : Cfg) (m : Mon) (e : MEv) (o : MObs) : Mon × List (String × String) :=
+  let out := o.out
+  let stNow := o.st
   let leaving : Bool := match e with
     | .down | .close | .rtr _ | .rta | .critRej => true
     | .rcr _ _ bad => !bad
     | .rca id => some id == m.lastCR
-    | .rcnj id bad => !bad && some id == m.lastCR
+    | .rcnj id leaves => leaves && some id == m.lastCR
     | _ => false
   let our1 := match e with
     | .rca id => m.our || some id == m.lastCR
@@ -543,33 +610,47 @@ def Mon.check (c : Cfg) (m : Mon) (e : MEv) (stNow : String) (out : List Pkt) : 
     | .rcr id _ false => out.any fun p => p.code == cCA && p.id == id
     | .down => false
     | _ => m.peer
-  -- every Configure-Request we send replaces "our most recent request"
   let crs := out.filter fun p => p.code == cCR
   let our2 := if crs.isEmpty then our1 else false
   let lastCR := match crs.getLast? with | some p => some p.id | none => m.lastCR
   let reqId : Option UInt8 := match e with
     | .rcr id _ _ => some id | .rca id => some id | .rcnj id _ => some id | .rtr id => some id | .echo id => some id | _ => none
+  -- the assignment in force while the event was handled: SetPeerIP first, pool calls of this event included
+  let m1 : Mon := match e with
+    | .setPeer a => { m with assigned := a }
+    | _ => m
+  -- (an Ack is sent before any pool call of the same event can happen: Up/Down send no Ack)
   let v1 := if stNow == "Opened" && !(our2 && peer1) then
       [("opened-without-agreement", s!"our={our2} peer={peer1}")] else []
   let v2 := if m.prev == "Opened" && leaving && stNow == "Opened" then [("stays-opened", "still Opened")] else []
   let v3 := match reqId with
     | some id => if out.any fun p => isReplyCode p.code && p.id != id then [("id-mismatch", s!"request id {id}")] else []
     | none => if out.any fun p => isReplyCode p.code then [("id-mismatch", "reply to nothing")] else []
+  -- "offending" is judged against the address assigned to the session now
+  let c := { c with peerIP := m1.assigned }
   let v4 := match e with
     | .rcr _ opts false =>
       (if out.any fun p => p.code == cCA && p.opts != opts then [("ack-options", "ack differs from request")] else []) ++
       (if out.any fun p => p.code == cCJ && !(sublistB p.opts (offending c opts)) then
           [("nak-options", "reject lists a non-offending option")] else []) ++
       (if out.any fun p => p.code == cCN && !(sublistB (p.opts.map (·.ty)) ((offending c opts).map (·.ty))) then
-          [("nak-options", "nak lists a non-offending option")] else []) ++
-      (if c.proto == .ipcp && out.any (fun p => p.code == cCA && p.opts.any fun o => o.ty == 3 && some o.data != c.peerIP) then
-          [("ipcp-address", "acked an address that is not the assigned one")] else [])
+          [("nak-options", "nak lists a non-offending option")] else [])
     | _ => []
-  let retx := match e with
-    | .timeout => if out.any fun p => p.code == cCR || p.code == cTR then m.retx + 1 else 0
-    | _ => 0
-  let bound := (if initRc c < 0 then 0 else initRc c).toNat
-  let v5 := if retx > bound then [("no-termination", s!"{retx} retransmissions, configured {bound}")] else []
-  ({ m with lastCR := lastCR, our := our2, peer := peer1, prev := stNow, retx := retx }, v1 ++ v2 ++ v3 ++ v4 ++ v5)
+  let v4b := if !o.ackBytesOk then [("ack-options", "the bytes of the Ack differ from the bytes of the request")] else []
+  let v4c := if c.proto == .ipcp && out.any (fun p => p.code == cCA && p.opts.any fun q => q.ty == 3 && some q.data != m1.assigned) then
+      [("ipcp-address", s!"acked an address that is not assigned to the session")] else []
+  -- silent peer: transmissions since the last event of the peer or the administrator
+  let reset : Bool := match e with
+    | .timeout | .stale | .local | .setPeer _ => false
+    | _ => true
+  let sent := (out.filter fun p => p.code == cCR || p.code == cTR).length
+  let tx := (if reset then 0 else m.tx) + sent
+  let bound := (if initRc c < 1 then 1 else initRc c).toNat
+  let v5 := if tx > bound then [("no-termination", s!"{tx} transmissions without a word from the peer, configured {bound}")] else []
+  let v6 := if o.armed && (stNow == "Initial" || stNow == "Starting" || stNow == "Closed" || stNow == "Stopped" || stNow == "Opened")
+    then [("timer-armed", s!"restart timer armed in {stNow}")] else []
+  let m2 := applyPoolObs m1 o.pool
+  ({ m2 with lastCR := lastCR, our := our2, peer := peer1, prev := stNow, tx := tx },
+   v1 ++ v2 ++ v3 ++ v4 ++ v4b ++ v4c ++ v5 ++ v6)
 
 end Bng.Ncp
